@@ -4,9 +4,12 @@
 
    A store is the record of the ten fields the property names (balances,
    capacities, debt, debt limit, audit counter, metabolic state) plus the
-   exact rational of the float [debt_interest] and one ghost field [accrued]
+   exact rational of the float [debt_interest] and two ghost fields: [accrued]
    (sum of the interest added to the debt since construction / the last
-   reset), which is what "interest aside" in the property refers to.
+   reset) and [owed] (the part of the debt that is interest still outstanding:
+   grows by each interest charge, shrinks by each debt payment, never below
+   zero), which is what "interest aside" in the property refers to:
+   debt <= max_debt + owed.
 
    The model is parameterised by
      [classify cur cap debt]   — the state decided by _update_state from
@@ -31,7 +34,8 @@ Record store := mkStore {
   total_consumed : Z;
   mst : mstate;
   rate_n : Z; rate_d : Z;        (* debt_interest as an exact fraction *)
-  accrued : Z }.                 (* ghost: interest added so far *)
+  accrued : Z;                   (* ghost: all interest added since construction / reset *)
+  owed : Z }.                    (* ghost: interest still outstanding (payments retire it first) *)
 
 (* what a call returned *)
 Inductive ret :=
@@ -43,25 +47,28 @@ Inductive ret :=
 
 Definition set_atp (s : store) (v : Z) : store :=
   mkStore v (gtp s) (nadh s) (max_atp s) (max_gtp s) (max_nadh s) (debt s) (max_debt s)
-          (total_consumed s) (mst s) (rate_n s) (rate_d s) (accrued s).
+          (total_consumed s) (mst s) (rate_n s) (rate_d s) (accrued s) (owed s).
 Definition set_gtp (s : store) (v : Z) : store :=
   mkStore (atp s) v (nadh s) (max_atp s) (max_gtp s) (max_nadh s) (debt s) (max_debt s)
-          (total_consumed s) (mst s) (rate_n s) (rate_d s) (accrued s).
+          (total_consumed s) (mst s) (rate_n s) (rate_d s) (accrued s) (owed s).
 Definition set_nadh (s : store) (v : Z) : store :=
   mkStore (atp s) (gtp s) v (max_atp s) (max_gtp s) (max_nadh s) (debt s) (max_debt s)
-          (total_consumed s) (mst s) (rate_n s) (rate_d s) (accrued s).
+          (total_consumed s) (mst s) (rate_n s) (rate_d s) (accrued s) (owed s).
 Definition set_debt (s : store) (v : Z) : store :=
   mkStore (atp s) (gtp s) (nadh s) (max_atp s) (max_gtp s) (max_nadh s) v (max_debt s)
-          (total_consumed s) (mst s) (rate_n s) (rate_d s) (accrued s).
+          (total_consumed s) (mst s) (rate_n s) (rate_d s) (accrued s) (owed s).
 Definition set_total (s : store) (v : Z) : store :=
   mkStore (atp s) (gtp s) (nadh s) (max_atp s) (max_gtp s) (max_nadh s) (debt s) (max_debt s)
-          v (mst s) (rate_n s) (rate_d s) (accrued s).
+          v (mst s) (rate_n s) (rate_d s) (accrued s) (owed s).
 Definition set_mst (s : store) (m : mstate) : store :=
   mkStore (atp s) (gtp s) (nadh s) (max_atp s) (max_gtp s) (max_nadh s) (debt s) (max_debt s)
-          (total_consumed s) m (rate_n s) (rate_d s) (accrued s).
+          (total_consumed s) m (rate_n s) (rate_d s) (accrued s) (owed s).
 Definition set_accrued (s : store) (v : Z) : store :=
   mkStore (atp s) (gtp s) (nadh s) (max_atp s) (max_gtp s) (max_nadh s) (debt s) (max_debt s)
-          (total_consumed s) (mst s) (rate_n s) (rate_d s) v.
+          (total_consumed s) (mst s) (rate_n s) (rate_d s) v (owed s).
+Definition set_owed (s : store) (v : Z) : store :=
+  mkStore (atp s) (gtp s) (nadh s) (max_atp s) (max_gtp s) (max_nadh s) (debt s) (max_debt s)
+          (total_consumed s) (mst s) (rate_n s) (rate_d s) (accrued s) v.
 
 Definition bal (s : store) (t : etype) : Z :=
   match t with ATP => atp s | GTP => gtp s | NADH => nadh s end.
@@ -150,7 +157,8 @@ Definition consume (s : store) (cost : Z) (t : etype) (allow_debt : bool) (prior
 
 Definition regenerate (s : store) (amount : Z) (t : etype) : store * ret :=
   let pay := if (0 <? debt s) && is_atp t then Z.min (debt s) amount else 0 in
-  let s1 := set_debt s (debt s - pay) in
+  (* ghost: a payment retires outstanding interest first *)
+  let s1 := set_owed (set_debt s (debt s - pay)) (Z.max 0 (owed s - pay)) in
   let remaining := amount - pay in
   let s2 := if 0 <? remaining
             then set_bal s1 t (Z.min (cap s1 t) (bal s1 t + remaining)) else s1 in
@@ -169,12 +177,12 @@ Definition convert (s : store) (amount : Z) : store * ret :=
 Definition apply_interest (s : store) : store * ret :=
   if 0 <? debt s then
     let i := interest (rate_n s) (rate_d s) (debt s) in
-    (set_accrued (set_debt s (debt s + i)) (accrued s + i), RUnit)
+    (set_owed (set_accrued (set_debt s (debt s + i)) (accrued s + i)) (owed s + i), RUnit)
   else (s, RUnit).
 
 Definition reset (s : store) : store * ret :=
   let s1 := mkStore (max_atp s) (max_gtp s) (max_nadh s) (max_atp s) (max_gtp s) (max_nadh s)
-                    0 (max_debt s) 0 (mst s) (rate_n s) (rate_d s) 0 in
+                    0 (max_debt s) 0 (mst s) (rate_n s) (rate_d s) 0 0 in
   let '(s2, raised) := update_state s1 in
   (s2, if raised then Raised else RUnit).
 
@@ -247,13 +255,28 @@ Fixpoint paid_steps (i : nat) (sys : list store) (ops : list op) : Z :=
   | o :: rest => let '(sys', r) := step sys o in paid_on i o r + paid_steps i sys' rest
   end.
 
+(* principal borrowed by store [i]: sum of the debt increases caused by its consumes *)
+Definition debt_at (i : nat) (sys : list store) : Z :=
+  match nth_error sys i with Some s => debt s | None => 0 end.
+
+Fixpoint borrowed_on (i : nat) (sys : list store) (ops : list op) : Z :=
+  match ops with
+  | [] => 0
+  | o :: rest =>
+      let '(sys', r) := step sys o in
+      match o with
+      | Local k (Consume _ _ _ _) => if Nat.eqb k i then debt_at i sys' - debt_at i sys else 0
+      | _ => 0
+      end + borrowed_on i sys' rest
+  end.
+
 End Model.
 
 (* ATP_Store(budget, gtp_budget, nadh_reserve, max_debt, debt_interest = rn/rd) *)
 Definition config := (Z * Z * Z * Z * Z * Z)%type.
 Definition init_store (c : config) : store :=
   let '(budget, g, n, md, rn, rd) := c in
-  mkStore budget g n budget g n 0 md 0 Normal rn rd 0.
+  mkStore budget g n budget g n 0 md 0 Normal rn rd 0 0.
 
 Definition sum_networth (sys : list store) : Z :=
   fold_right (fun s acc => networth s + acc) 0 sys.
